@@ -121,3 +121,51 @@ contract(C + 'ContactlessFrontend._llcp_connect', 'C18',
                                   'count(EVENTS, "release") == 0)'),
                   ('post.none', 'implies(result is None, count(EVENTS, "connect") == 0)')],
          raises={'IOError': []})
+
+# "on-release exactly once ... returns as documented" for a peer-to-peer link rests on llc.run() coming back with a
+# bool or IOError (the LlcEvModel above).  Its last step, whatever ended the link, is the NFC-DEP release/deselect
+# handshake in mac.deactivate(): with any answer of the peer - any octets, none, a transmission error - it must
+# return (None) and raise nothing, or connect() raises instead of calling on-release.  The log calls on this path
+# have their argument expressions evaluated (hook eval_log_args): a format spec that the value's type refuses
+# raises there like anywhere else.
+from .c19_negotiate import PCNT, DEP   # noqa
+_XCLF = lambda: Obj('models.clf_models:ExchangeClf', _partial=False, sent=Fixed([]), outcomes=Fixed([]),   # noqa
+                    answers=Fixed([]))
+_RTG = lambda: OneOf(Obj('nfc.clf:RemoteTarget', _partial=False, _brty_send='106A', _brty_recv='106A'),   # noqa
+                     Obj('nfc.clf:RemoteTarget', _partial=False, _brty_send='424F', _brty_recv='424F'))
+contract(DEP + 'Initiator.deactivate', 'C18',
+         dict(self=Obj(DEP + 'Initiator', _partial=False, pcnt=PCNT(), clf=_XCLF(), target=_RTG(),
+                       did=Opt(Int(0, 14)), nad=Opt(Byte()), miu=Int(1, 251), pni=Int(0, 3), rwt=Const(0.01),
+                       _acm=Bool(), gbi=Bytes(0, 48), gbt=Bytes(0, 48), brs=Int(0, 2), lri=Int(0, 3)),
+              release=Bool()),
+         name='C18/dep.Initiator.deactivate', hooks={'eval_log_args': True, 'opaque_str': False},
+         ensures=[('post.none', 'result is None'),
+                  ('post.one-request', 'len(self.clf.sent) == 1 and self.clf.sent[0][-2 - (0 if self.did is None else 1)] '
+                                       '== 0xD4 and self.clf.sent[0][-1 - (0 if self.did is None else 1)] == '
+                                       '(0x0A if release else 0x08)')],
+         raises={})
+
+# the Target's side of the same clean-up: Target.deactivate() over the frame exchange replaced by a contract
+# (any request PDU, none, or a communication error): returns None, raises nothing, answers DSL/RLS with the
+# matching response
+_TREQ = lambda: Obj(DEP + 'DEP_REQ', _partial=False,   # noqa
+                    pfb=Obj(DEP + 'DEP_REQ.PFB', _partial=False, fmt=Int(0, 15), nad=Bool(), did=Bool(), pni=Int(0, 3)),
+                    did=Opt(Int(0, 14)), nad=None, data=Bytes(0, 255, mutable=True))
+contract(DEP + 'Target.send_res_recv_req', 'C18', dict(self=Any(), res=Any(), deadline=Any()),
+         name='C18/dep.Target.frame-exchange', assumed=True,
+         note='encode_frame + clf.exchange + decode_frame on the Target (C04/C07 contracts): the next request or None',
+         raises={'nfc.clf:TimeoutError': [], 'nfc.clf:TransmissionError': [], 'nfc.clf:ProtocolError': [],
+                 'nfc.clf:BrokenLinkError': []},
+         returns=OneOf(None, _TREQ(), Obj(DEP + 'DSL_REQ', _partial=False, did=Opt(Int(0, 14))),
+                       Obj(DEP + 'RLS_REQ', _partial=False, did=Opt(Int(0, 14))),
+                       Obj(DEP + 'ATR_REQ', _partial=True, did=Opt(Int(0, 14)))))
+contract(DEP + 'Target.deactivate', 'C18',
+         dict(self=Obj(DEP + 'Target', _partial=False, pcnt=PCNT(), clf=None, target=None, did=Opt(Int(0, 14)),
+                       nad=Opt(Byte()), miu=Int(1, 251), pni=Int(0, 3), rwt=Const(0.01), cmd=None,
+                       gbi=Bytes(0, 48), gbt=Bytes(0, 48)),
+              data=Bytes(0, 2, mutable=True)),
+         name='C18/dep.Target.deactivate', use=['C18/dep.Target.frame-exchange'], hooks={'eval_log_args': True},
+         ensures=[('post.none', 'result is None')],
+         raises={},
+         loops={('nfc.dep.Target._deactivate', 'While', 0): LoopSpec(
+             invariant=['True'], havoc={'res': Opt(Obj(DEP + 'DEP_RES')), 'req': Opt(_TREQ())})})
